@@ -65,6 +65,7 @@ type vwScenario struct {
 	Name     string   `json:"name"`
 	Steps    []vwStep `json:"steps"`
 	Complete bool     `json:"complete"`
+	CidPos   *int     `json:"cidpos"` // byte position in which the client ids of this history differ (default: rotates with the history index)
 }
 
 type vwWill struct {
@@ -157,12 +158,20 @@ func (r *vwRun) emit(ev map[string]interface{}) {
 	r.tr.mu.Unlock()
 }
 
+// Announced client ids of one history are equal in fifteen bytes and differ in ONE byte position, which rotates
+// with the history index: an identity that the server shortens, masks or mis-copies in any single position makes two
+// of these clients one (ids that differ in every byte, or only in the low bytes, would hide that).
+var vwCidPos int
+
+var vwCidBase = [16]byte{0x51, 0x62, 0x73, 0x84, 0x95, 0xa6, 0xb7, 0xc8, 0xd9, 0xea, 0xfb, 0x1c, 0x2d, 0x3e, 0x4f, 0x60}
+
 func vwCid(n int) [16]byte {
 	if n <= 0 {
 		return [16]byte{}
 	}
-	b := vKey(int64(n))
-	b[15] = 0xC1
+	b := vwCidBase
+	b[vwCidPos] ^= byte(n)
+	b[(vwCidPos+1)%16] ^= byte(n >> 8)
 	return b
 }
 
@@ -170,11 +179,12 @@ func vwCidInt(b [16]byte) int {
 	if b == ([16]byte{}) {
 		return 0
 	}
-	if b[15] != 0xC1 {
+	p, q := vwCidPos, (vwCidPos+1)%16
+	n := int(b[p]^vwCidBase[p]) | int(b[q]^vwCidBase[q])<<8
+	if n <= 0 || vwCid(n) != b {
 		return -2
 	}
-	b[15] = 0
-	return int(vKeyInt(b))
+	return n
 }
 
 // ---------------------------------------------------------------- readers (client side of the pipes)
@@ -1133,6 +1143,10 @@ func TestVerifW(t *testing.T) {
 	for i, sc := range scs {
 		sc := sc
 		r := &vwRun{tr: tr, conns: map[int]*vwConn{}, gates: map[vwGateKey]*vwGate{}}
+		vwCidPos = (base + i) % 16
+		if sc.CidPos != nil {
+			vwCidPos = ((*sc.CidPos % 16) + 16) % 16
+		}
 		r.mark("building the server")
 		done := make(chan struct{})
 		// the history runs on its own goroutine: every wait for the code under test (a reply, a PONG, Close(), a
